@@ -60,7 +60,20 @@ def main() -> int:
             if replay:
                 mod.replay(ctx, replay)
             else:
+                import time as _t
+
+                t_pass = _t.time()
                 mod.run(ctx)
+                dur = _t.time() - t_pass
+                # the code the model mirrors differs from the pins: further passes with fresh random streams
+                # while no violation has been found and a whole pass still fits into the time budget
+                budget = float(os.environ.get("VERIF_BUDGET_S") or (1500 if ctx.thorough else 300))
+                k = 0
+                while (k < ctx.escalation and not ctx.violations and not ctx.thorough
+                       and (_t.time() - ctx.t0) + 1.2 * dur < budget):
+                    k += 1
+                    ctx.reseed(k)
+                    mod.run(ctx)
         finally:
             if cov:
                 ctx.extra["impl_line_coverage"] = cov.stop()
